@@ -48,9 +48,14 @@ type ksCase struct {
 	members []member
 	primary int
 	h       *keyset.Handle
+	// fallback is set for keysets of key types without a parser (fallback_test.go); members is then empty
+	fallback *fbCase
 }
 
 func (c *ksCase) String() string {
+	if c.fallback != nil {
+		return c.fallback.String()
+	}
 	var b strings.Builder
 	fmt.Fprintf(&b, "keyset class=%s keys=%d primary=#%d", c.class, len(c.members), c.primary)
 	for i, m := range c.members {
@@ -640,6 +645,11 @@ func produceConsume(rt *rapid.T, c *ksCase, from, to party, msg, ad []byte) {
 func TestKeysetRoundTrip(t *testing.T) {
 	rapid.Check(t, func(rt *rapid.T) {
 		detrand.Seed(rapid.Uint64().Draw(rt, "entropy"))
+		// one case in eight: a keyset of key types that have no registered parser (fallback proto keys)
+		if rapid.IntRange(0, 7).Draw(rt, "keyset_kind") == 7 {
+			runFallbackKeyset(rt)
+			return
+		}
 		c := drawKeyset(rt)
 		c.checkHandle(rt, "handle from keyset.Manager", c.h, false)
 
